@@ -61,7 +61,7 @@ def gen_formula(rng):
     return s
 
 
-def gen_frame(rng, n, nulls, plain=False):
+def gen_frame(rng, n, nulls, plain=False, p_text=False):
     def nul(v):
         return None if nulls and rng.random() < 0.1 else v
 
@@ -72,7 +72,9 @@ def gen_frame(rng, n, nulls, plain=False):
 
     return {"cols": [
         ["x", {"kind": "num", "dtype": "float64", "values": [round(rng.uniform(0.5, 9.5), 4) for _ in range(n)]}],
-        ["p", {"kind": "num", "dtype": "float64", "values": [nul(round(rng.uniform(1, 3), 4)) for _ in range(n)]}],
+        # (in some frames `p` holds text: the same formula then treats it as categorical there)
+        ["p", {"kind": "text", "dtype": "object", "values": [nul(rng.choice(["lo", "mid", "hi"])) for _ in range(n)]} if p_text else
+              {"kind": "num", "dtype": "float64", "values": [nul(round(rng.uniform(1, 3), 4)) for _ in range(n)]}],
         ["b m", {"kind": "num", "dtype": "float64", "values": [round(rng.gauss(70, 10), 3) for _ in range(n)]}],
         ["A", {"kind": "cat", "categories": ["u", "v", "w"], "values": cat(["u", "v", "w"])}],
         ["B", {"kind": "cat", "categories": ["k", "l"], "values": [nul(v) for v in cat(["k", "l"])]}],
@@ -83,7 +85,7 @@ def gen_frame(rng, n, nulls, plain=False):
 
 
 def gen_case(rng: random.Random, tier: str) -> dict:
-    frames = [gen_frame(rng, rng.choice([10, 14, 20]), rng.random() < 0.4, rng.random() < 0.4) for _ in range(rng.randint(2, 3))]
+    frames = [gen_frame(rng, rng.choice([10, 14, 20]), rng.random() < 0.4, rng.random() < 0.4, rng.random() < 0.2) for _ in range(rng.randint(2, 3))]
     formulas = [gen_formula(rng) for _ in range(rng.randint(3, 5))]
     ops, nspec = [], 0
     for _ in range(rng.randint(8, 30)):
@@ -151,6 +153,8 @@ class Pool:
     def spec(self, k):
         """In fresh mode a spec is rebuilt from its defining op (recursively)."""
         if self.mode == "shared":
+            if isinstance(self.specs[k], BaseException):  # defining it failed: using it fails the same way (as it does when rebuilt)
+                raise self.specs[k]
             return self.specs[k]
         op = next(o for o in self.h["ops"] if o.get("as") == k)
         return self.define(op)
@@ -175,6 +179,14 @@ class Pool:
         return src._map(upd) if hasattr(src, "_map") else upd(src)
 
 
+def exc_digest(e):
+    """A failing call must fail in both processes. When several factors of one call are invalid, which of them is reported
+    (evaluation vs encoding error) follows set order - the property fixes values, column order and dropped rows, not that."""
+    from formulaic.errors import FormulaicError
+
+    return "EXC:formulaic" if isinstance(e, FormulaicError) else f"EXC:{type(e).__name__}"
+
+
 def run_history(hist, mode):
     """Execute the calls; returns {op index: digest | 'EXC:<type>'}. mode 'fresh' executes them in shuffled order."""
     from formulaic import model_matrix
@@ -196,15 +208,24 @@ def run_history(hist, mode):
                 elif op["op"] == "replay":
                     res = pool.spec(op["spec"]).get_model_matrix(pool.frame(op["d"]), drop_rows=drop, context=pool.context())
                 else:
+                    made = pool.define(op)  # (in fresh mode only to see whether defining it raises there too)
                     if mode == "shared":
-                        pool.specs[op["as"]] = pool.define(op)
+                        pool.specs[op["as"]] = made
                     continue
             digests[i] = result_digest(res, drop)
         except Exception as e:  # noqa: BLE001
-            digests[i] = f"EXC:{type(e).__name__}"
+            digests[i] = exc_digest(e)
             if op["op"] in ("fit", "unfit", "clone") and mode == "shared":
-                pool.specs[op["as"]] = None
+                pool.specs[op["as"]] = e
     return digests, pool
+
+
+def formula_fingerprint(fobj):
+    """Everything a formula object holds: nested structure, term order, and each factor's text, kind, evaluation method, metadata."""
+    def leaf(terms):
+        return [[(f.expr, f.kind.value, f.eval_method.value, repr(f.metadata), repr(getattr(f, "token", None))) for f in t.factors] for t in terms]
+
+    return repr(fobj._map(leaf) if hasattr(fobj, "_map") else leaf(fobj))
 
 
 def probe_spec(spec, frame, ctx):
@@ -217,7 +238,7 @@ def probe_spec(spec, frame, ctx):
         with quiet():
             res["replay"] = result_digest(spec.get_model_matrix(frame, drop_rows=drop, context=ctx), drop)
     except Exception as e:  # noqa: BLE001
-        res["replay"] = f"EXC:{type(e).__name__}"
+        res["replay"] = exc_digest(e)
     leaves = list(spec._flatten()) if hasattr(spec, "_flatten") else [spec]
     for j, leaf in enumerate(leaves):
         try:
@@ -262,7 +283,7 @@ def judge(case) -> Outcome:
     from formulaic import Formula
 
     for i, fobj in pool.forms.items():
-        if repr(fobj) != repr(Formula(case["formulas"][i])):
+        if repr(fobj) != repr(Formula(case["formulas"][i])) or formula_fingerprint(fobj) != formula_fingerprint(Formula(case["formulas"][i])):
             out.fail("c18.formula_mutated", f"shared Formula {case['formulas'][i]!r} changed: {fobj!r}")
     # (ii) repeated identical calls inside A
     seen = {}
@@ -280,7 +301,7 @@ def judge(case) -> Outcome:
     # every spec of the history also crosses the process boundary as a pickle
     probesA, pickles = {}, {}
     for k, sp in sorted(pool.specs.items()):
-        if sp is None:
+        if sp is None or isinstance(sp, BaseException):
             continue
         try:
             pickles[str(k)] = pickle.dumps(sp).hex()
